@@ -237,6 +237,9 @@ func c19Check(x *core.Ctx, c *core.Case) {
 			}
 		}
 	}
+	// everything the encoding carries, compared node by node with the tree that was encoded (for a validated tree that
+	// includes the schema definitions validation linked it to, as deep as they go)
+	x.Count("deep_comparisons")
 	shape, sp, in := shapeOf(want)
 	x.Distinct("shape", shape)
 	if sp > 0 {
@@ -250,6 +253,15 @@ func c19Check(x *core.Ctx, c *core.Case) {
 	}
 	if code, detail := model.DiffDocs(want, got); code != "" {
 		x.Violate("roundtrip:"+code, detail+"\ndecoded:\n"+got.Canon(), "original:\n"+want.Canon())
+		return
+	}
+	if w, d := jsonDeepDiff(doc, &back); w != "" {
+		// the signature names the kind of place (the last three steps of the path), not how deep it was found
+		steps := strings.Split(strings.ReplaceAll(w, "[]", ""), ".")
+		if len(steps) > 3 {
+			steps = steps[len(steps)-3:]
+		}
+		x.Violate("roundtrip:deep("+strings.Join(steps, ".")+")", w+": "+d, "the same value on both sides")
 		return
 	}
 	// decoding into a value that already holds another document (a server reusing its request object) gives this document,
